@@ -102,8 +102,4 @@ def rootSliceOf (fs : FsState) : DiskSlice :=
   { beginOff := (fs.firstDataSector - fs.rootDirSectors) * fs.bps, size := fs.rootDirSectors * fs.bps,
     mirrors := 1, viaFs := true }
 
-/-- `offset_from_cluster` (cluster ≥ 2 on every reachable path; truncated subtraction otherwise) -/
-def offsetFromCluster (fs : FsState) (c : Nat) : Nat :=
-  (fs.firstDataSector + (c - 2) * fs.spc) * fs.bps
-
 end FatVerif
